@@ -28,6 +28,7 @@ def run(ctx):
     ctx.fingerprint(FILES)
     ctx.translate(["Greedy"])
     ctx.build(PROPS_FILE, deps=["Model/Greedy.v"])
+    G.ensure_model(ctx)
     quick = ctx.tier == "quick"
     n = 900 if quick else 9000
     cases = []
